@@ -27,8 +27,6 @@ import (
 
 	"gitlab.com/yawning/obfs4.git/transports"
 	"gitlab.com/yawning/obfs4.git/transports/base"
-	"gitlab.com/yawning/obfs4.git/transports/obfs3"
-	"gitlab.com/yawning/obfs4.git/transports/obfs4"
 
 	"verif/memwire"
 	"verif/mon"
@@ -62,17 +60,6 @@ func endpoints(c *mon.Case, tr string, dir string, rng interface{ IntN(int) int 
 		return
 	}
 	return cf, cargs, sf, true
-}
-
-func buffered(tr string, conn net.Conn) (int, bool) {
-	switch tr {
-	case "obfs4":
-		u, d, ok := obfs4.VerifBuffered(conn)
-		return u + d, ok
-	case "obfs3":
-		return obfs3.VerifBuffered(conn)
-	}
-	return 0, false
 }
 
 type endState struct {
